@@ -141,7 +141,7 @@ def run(tier, replay=None):
     v = common.Verdict('C09', tier, 'model_checking')
     if replay:
         return ikeprop.replay_file(v, replay)
-    scen = ['estab_c09', 'estab_idle'] if tier == 'quick' else ['estab_c09', 'estab_idle', 'estab3_c09', 'estab_pfs', 'estab_rekey_ke', 'init3']
+    scen = ['estab_c09', 'estab_idle', 'estab3_soft', 'estab3_rekey'] if tier == 'quick' else ['estab_c09', 'estab_idle', 'estab3_soft', 'estab3_rekey', 'estab3_c09', 'estab_pfs', 'estab_rekey_ke', 'init3']
     ikeprop.run(v, scen, limit=3500 if tier == 'quick' else 30000)
     # liveness: under fair delivery and a finite retransmission budget every IKE_SA eventually stops waiting
     live = []
